@@ -37,7 +37,9 @@ func init() {
 			"The quick tier runs this scope completely for the family 'error-proof' and a 1/8 sample of the 4- and 5-validator part for the other 8 evidence families; the thorough tier runs it completely for all families (and, for 'error-proof', all 7^5 vectors of 5 validators plus the non-increasing vectors of 6); " +
 			"(b) random: 30..175 validators with shares up to 2^200 steered to the 2/3 boundary (one below / exact / one above), re-submissions, outsiders. " +
 			"IN SITU: seeded histories on the real app: per history one validator set (3..7 members, 0..2 bonded outsiders), per queued message an episode of evidence/estimate transactions " +
-			"steered to the boundary; oracle evaluated after every block. A case counts as distinct & non-trivial if at least one snapshot member submitted; " +
+			"steered to the boundary; oracle evaluated after every block. Orphan re-assignment histories (situ-reassign-*; also one step in every second standard history): " +
+			"a camp holding >= 2/3 gets an estimate elected, everybody else hands in far-away estimates after the election, the message ages, ConsensusKeeper.ReassignOrphanedMessages hands it to a relayer " +
+			"(called at a block boundary; three placements of the late estimates relative to repeated runs), end-blockers again; elected estimates are re-observed after the call and after every block. A case counts as distinct & non-trivial if at least one snapshot member submitted; " +
 			"'evaluations' counts single oracle comparisons (one VerifyEvidence/VerifyGasEstimates/Median call, or one tracked message checked after one block).",
 		Assumptions: []string{
 			"evidence identity = type URL + value bytes of the submitted proof Any (canonical protobuf encodings only are generated)",
@@ -45,12 +47,13 @@ func init() {
 			"only well-formed evidence of the type the queue expects is generated (nil/garbage proofs and wrong-type evidence abort the end-blocker: property C09)",
 			"in situ, a message that has had >= 2/3 identical evidence for 3 consecutive blocks and is still queued counts as 'not processed' (the end-blocker aborts its loop for one block after some attestations)",
 			"update-valset messages superseded by a newly built snapshot are not judged (removal by supersession is not an attestation)",
+			"ConsensusKeeper.ReassignOrphanedMessages (orphan re-assignment) is part of the histories although no begin/end-blocker of the pinned tree calls it: it is driven by a direct keeper call on the working state at a block boundary, with ages 1..20 blocks",
 			"reference-block messages are scheduled through the exported keeper function the end-blocker calls at height%10000==0; balances messages by the real end-blocker at height 300 in every history that runs the balances phase",
 		},
 		Exhaustive:  func(tier string) bool { return true },
 		Cases:       cases,
 		Run:         run,
-		MinCounters: []string{"pure_evidence_boundary_exactly_two_thirds", "pure_evidence_boundary_one_share_short", "pure_evidence_split_votes", "pure_evidence_replaced_evidence", "pure_evidence_outsider_submissions", "pure_gas_quorum", "pure_median_evaluations", "situ_messages_attested", "situ_estimates_elected", "situ_boundary_exactly_two_thirds", "situ_outsider_evidence_accepted", "situ_replaced_evidence"},
+		MinCounters: []string{"pure_evidence_boundary_exactly_two_thirds", "pure_evidence_boundary_one_share_short", "pure_evidence_split_votes", "pure_evidence_replaced_evidence", "pure_evidence_outsider_submissions", "pure_gas_quorum", "pure_median_evaluations", "situ_messages_attested", "situ_estimates_elected", "situ_boundary_exactly_two_thirds", "situ_outsider_evidence_accepted", "situ_replaced_evidence", "situ_reassigned_after_election_and_late_estimates"},
 		Workers:     16,
 		TimeoutS:    1500,
 	})
@@ -72,6 +75,15 @@ func cases(tier string, seed int64) []fw.Case {
 	for i := 0; i < nSitu; i++ {
 		k++
 		add(fmt.Sprintf("situ-%03d", i), k, situParams{Mode: "situ", Index: i, Thorough: thorough})
+	}
+	// in-situ orphan re-assignment histories (situ_reassign.go). Their seeds come from a range of their
+	// own, so that the cases above and below are the ones they were before these were added.
+	nRe := 10
+	if thorough {
+		nRe = 36
+	}
+	for i := 0; i < nRe; i++ {
+		add(fmt.Sprintf("situ-reassign-%03d", i), 900_000+int64(i), situParams{Mode: "situ", Index: i, Thorough: thorough, Script: "reassign"})
 	}
 	// pure / evidence / exhaustive
 	for fi, f := range fams {
